@@ -90,9 +90,9 @@ pub fn c14c_tiling<const K: usize, const D: usize, const MAXREC: usize>() {
     // ---- end of extracted block ----
     // row-length model: kcount numbers of NUMBER_SIZE characters joined by the delimiter + '\n'
     let row_len = kcount * NUMBER_SIZE + (kcount - 1) * delim_len + 1;
-    let file_size = file_size_of(seq_count, header_on, header_len, delim_len, kcount);
-    let a = row_offset(n, row_len, header_len, delim_len, kcount);
-    let b = row_offset(n2, row_len, header_len, delim_len, kcount);
+    let file_size = file_size_of(seq_count, header_on, header_len, delim_len, kcount, k);
+    let a = row_offset(n, row_len, header_len, delim_len, kcount, k);
+    let b = row_offset(n2, row_len, header_len, delim_len, kcount, k);
     check!(a >= header_len, "C14: a row is written over the header");
     check!(a + row_len <= file_size, "C14: a row is written (partly) outside the mapped file");
     if n < n2 {
@@ -101,9 +101,9 @@ pub fn c14c_tiling<const K: usize, const D: usize, const MAXREC: usize>() {
     if n + 1 == n2 {
         check!(a + row_len == b, "C14: consecutive rows are not adjacent (bytes left unwritten)");
     }
-    check!(row_offset(0, row_len, header_len, delim_len, kcount) == header_len, "C14: first row does not start right after the header");
+    check!(row_offset(0, row_len, header_len, delim_len, kcount, k) == header_len, "C14: first row does not start right after the header");
     check!(
-        row_offset(seq_count - 1, row_len, header_len, delim_len, kcount) + row_len == file_size,
+        row_offset(seq_count - 1, row_len, header_len, delim_len, kcount, k) + row_len == file_size,
         "C14: file size is not header length + records x row length"
     );
     check!(HEADER_WRITE_POS == 0 && header_len <= file_size, "C14: header is not written at the start of the mapped file");
@@ -127,8 +127,8 @@ pub fn c14c_no_overflow<const K: usize, const D: usize>() {
     let header_len = if header_on { kcount * k + (kcount - 1) * delim_len + 1 } else { 0 };
     /*@@C14C@@*/
     let row_len = kcount * NUMBER_SIZE + (kcount - 1) * delim_len + 1;
-    let file_size = file_size_of(seq_count, header_on, header_len, delim_len, kcount);
-    let a = row_offset(n, row_len, header_len, delim_len, kcount);
+    let file_size = file_size_of(seq_count, header_on, header_len, delim_len, kcount, k);
+    let a = row_offset(n, row_len, header_len, delim_len, kcount, k);
     check!(a >= header_len, "C14: a row is written over the header");
     check!(file_size >= header_len, "C14: file size is not header length + records x row length");
     cover!(seq_count > (1usize << 31), "req: more than 2^31 records");
